@@ -39,7 +39,7 @@ func init() {
 		Level: "exploration",
 		Rule: "leg tree: a tree case generates one block tree (main chain of 52 + side branches + uncle siblings) over one of three fork schedules with the node's own block builder and imports it block by block; every block is then one case; " +
 			"every block carries forced value-moving templates (reverting inner frames after a transfer, failed creations with value, creation on a funded address, " +
-			"self-destruct to self/other/inside a reverted frame/twice/then refilled, zero-value touches of empty accounts inside reverted frames followed by credits, " +
+			"self-destruct to self/other/inside a reverted frame/twice/three and more times with refills in between, zero-value touches of empty accounts inside reverted frames followed by credits, " +
 			"value above balance, precompile recipients, DELEGATECALL/CALLCODE/STATICCALL self-destructs, special coinbases, the HF4 de-allocation) plus PRNG programs nested up to 4 frames; " +
 			"every block is imported by a real BlockChain with a tracer and re-executed transaction by transaction. " +
 			"leg maxmoney: StateProcessor.Process / Engine.Finalize on synthetic blocks numbered around 42,000,000 with 0-2 uncles. " +
@@ -61,7 +61,7 @@ func init() {
 			g := map[string]int{
 				"blocks_checked": 1500, "txs_checked": 4000, "blocks_exact": 500, "blocks_upper_bound_only": 100,
 				"hf4_block": 8, "hf4_block_with_funded_listed_account": 8, "block_with_1_uncle": 20, "block_with_2_uncles": 10,
-				"sd_effective": 100, "sd_reverted": 20, "sd_to_self": 20, "sd_repeat_same_tx": 20, "value_into_selfdestructed_same_tx": 20,
+				"sd_effective": 100, "sd_reverted": 20, "sd_to_self": 20, "sd_repeat_same_tx": 20, "sd_third_or_later_after_refund_same_tx": 20, "value_into_selfdestructed_same_tx": 20,
 				"inner_value_frame_failed": 20, "value_transfer_rolled_back": 20, "value_above_balance": 20,
 				"create_with_value_failed": 20, "create_on_funded_address": 20, "reverted_touch_of_empty_account": 20,
 				"callcode_with_value": 20, "delegatecall_frame": 20, "staticcall_frame": 20, "static_write_trapped": 20,
@@ -589,6 +589,7 @@ func countObs(c *fw.Ctx, o *obs) {
 	c.CountN("sd_reverted", o.SdReverted)
 	c.CountN("sd_to_self", o.SdToSelf)
 	c.CountN("sd_repeat_same_tx", o.SdRepeat)
+	c.CountN("sd_third_or_later_after_refund_same_tx", o.SdThirdRefunded)
 	c.CountN("value_into_selfdestructed_same_tx", o.ValueIntoSuicide)
 	c.CountN("inner_value_frame_failed", o.InnerValueFail)
 	c.CountN("value_transfer_rolled_back", o.ValueRolledBack)
